@@ -415,6 +415,30 @@ func runEncode(c *Case, tr *Trace, parse bool) {
 			}
 			rec.Events, rec.held = nil, nil
 			err = p.Parse(exact(sk.all))
+		} else if sp, ok := c.Sub["split"].(float64); ok && len(sk.all) >= 2 {
+			// sub.split: the bytes reach a parser object in two or three Write calls (the cut position varies from
+			// case to case; odd values add a one-byte piece right after the cut), then the end of input is signalled
+			k := 1 + int(sp)%(len(sk.all)-1)
+			pieces := [][]byte{sk.all[:k], sk.all[k:]}
+			if int(sp)%2 == 1 && k+1 < len(sk.all) {
+				pieces = [][]byte{sk.all[:k], sk.all[k : k+1], sk.all[k+1:]}
+			}
+			p := api.newParser(rec)
+			for _, pc := range pieces {
+				buf := exact(pc)
+				_, err = p.Write(buf)
+				for i := range buf {
+					buf[i] = 0xAA
+				}
+				if err != nil {
+					break
+				}
+			}
+			if err == nil {
+				if f, has := p.(interface{ VerifFinalize() error }); has {
+					err = f.VerifFinalize()
+				}
+			}
 		} else {
 			err = api.parse(exact(sk.all), rec)
 		}
